@@ -140,13 +140,49 @@ Proof.
     + inversion H; subst. exists []. rewrite app_nil_r. auto.
 Qed.
 
+Lemma obj_ok_with_shot w x i n p t : obj_ok w x i -> obj_ok w (with_shot n p t x) i.
+Proof. intros (H1 & H2 & H3 & H4 & H5). unfold obj_ok; cbn [with_shot opid ostart ogone oreused ohash ident]. splits; auto; lia. Qed.
+
+Lemma parse_stat_obj w x i : obj_ok w x i -> obj_ok w (fst (parse_stat (view_of w) x)) i.
+Proof.
+  intros O. unfold parse_stat.
+  destruct (oshot x) as [|n]; [|destruct (ocstat x)]; cbn [fst]; auto;
+    destruct (kv_stat (view_of w) (opid x)) as [[[? ?] ?]|]; cbn [fst]; auto;
+    try (apply obj_ok_with_shot; auto).
+Qed.
+
+Lemma oneshot_enter_obj w x i : obj_ok w x i -> obj_ok w (oneshot_enter x) i.
+Proof. intros O. unfold oneshot_enter. destruct (oshot x); apply obj_ok_with_shot; auto. Qed.
+
+Lemma oneshot_exit_obj w x i x1 : obj_ok w x i -> oneshot_exit x = Some x1 -> obj_ok w x1 i.
+Proof.
+  intros O. unfold oneshot_exit. destruct (oshot x) as [|[|n]]; intros E; inversion E; subst;
+    apply obj_ok_with_shot; auto.
+Qed.
+
 Lemma do_ppid_obj w x i : Inv w -> obj_ok w x i ->
   obj_ok w (fst (fst (do_ppid (view_of w) x))) i.
 Proof.
   intros I O. unfold do_ppid.
-  destruct (raise_if_spec w x i I O) as (x1 & r1 & add & E & (_ & _ & O1) & _). rewrite E.
-  destruct r1 as [u|e|]; cbn [fst]; auto.
-  destruct (kv_stat (view_of w) (opid x1)) as [[[? ?] ?]|]; cbn [fst]; auto.
+  assert (G : obj_ok w
+    (fst (fst (let '(x1, r, add) := raise_if_pid_reused (view_of w) x in
+      match r with
+      | Val _ =>
+        let '(x2, st) := parse_stat (view_of w) x1 in
+        match st with
+        | Some (_, pp) =>
+          (match oshot x2 with S _ => with_shot (oshot x2) (Some pp) (ocstat x2) x2 | O => x2 end, Val (RInt pp), add)
+        | None => (x2, Exc (esrch_exn (view_of w) (opid x2)), add)
+        end
+      | Exc e => (x1, Exc e, add)
+      | OutOfModel => (x1, OutOfModel, add)
+      end))) i).
+  { destruct (raise_if_spec w x i I O) as (x1 & r1 & add & E & (_ & _ & O1) & _). rewrite E.
+    destruct r1 as [u|e|]; cbn [fst]; auto.
+    pose proof (parse_stat_obj w x1 i O1) as O2.
+    destruct (parse_stat (view_of w) x1) as [x2 [[? pp]|]]; cbn [fst] in *; auto.
+    destruct (oshot x2); auto; try (apply obj_ok_with_shot; auto). }
+  destruct (oshot x); [exact G|]. destruct (ocppid x); [cbn [fst]; auto|exact G].
 Qed.
 
 Lemma do_create_time_obj w m x i :
@@ -155,7 +191,8 @@ Lemma do_create_time_obj w m x i :
   objs (fst (fst (do_create_time (view_of w) m x))) = objs m.
 Proof.
   intros O. unfold do_create_time. destruct (octime x); cbn [fst snd]; auto.
-  destruct (kv_stat (view_of w) (opid x)) as [[[st ?] ?]|]; cbn [fst snd]; auto.
+  pose proof (parse_stat_obj w x i O) as O1.
+  destruct (parse_stat (view_of w) x) as [x1 [[st ?]|]]; cbn [fst snd] in *; auto.
   destruct (bootc m) as [bb|]; [destruct (bb =? 0)|]; cbn [do_boot_time fst snd with_bootc objs];
     split; auto; apply obj_ok_with_ctime; auto.
 Qed.
@@ -177,10 +214,30 @@ Proof.
                            Forall (fun y => exists p, new_obj (view_of w) p = Val y) news).
   { intros m o x1 x i Ex Ei O1 E. exists (upd_nth o x1 (objs (ms w))), []. rewrite app_nil_r.
     splits; auto. eapply upd_objs_ok; eauto. }
-  destruct c as [pid|o|a b|a b|o s|o|o| |]; cbn [mcall] in H.
+  destruct c as [pid|pid|o|o|o|o|a b|a b|o s|o|o| |]; cbn [mcall] in H.
   - (* New *)
     destruct (new_obj (view_of w) pid) as [y|e|] eqn:N; inversion H; subst; auto.
     exists (objs (ms w)), [y]. cbn [with_objs objs]. splits; eauto.
+  - (* NewPopen *)
+    destruct (kexists (view_of w) pid); [|inversion H; subst; auto].
+    destruct (new_obj (view_of w) pid) as [y|e|] eqn:N; inversion H; subst; auto.
+    exists (objs (ms w)), [y]. cbn [with_objs objs]. splits; eauto.
+  - (* OneshotEnter *)
+    destruct (nth_error (objs (ms w)) o) as [x|] eqn:Ex; [|inversion H; subst; auto].
+    destruct (Forall2_nth_l _ _ _ _ _ F Ex) as (i & Ei & O).
+    inversion H; subst. apply (Upd _ o (oneshot_enter x) x i); auto. apply oneshot_enter_obj; auto.
+  - (* OneshotExit *)
+    destruct (nth_error (objs (ms w)) o) as [x|] eqn:Ex; [|inversion H; subst; auto].
+    destruct (Forall2_nth_l _ _ _ _ _ F Ex) as (i & Ei & O).
+    destruct (oneshot_exit x) as [x1|] eqn:Eo; inversion H; subst; auto.
+    apply (Upd _ o x1 x i); auto. eapply oneshot_exit_obj; eauto.
+  - (* AsDict *)
+    destruct (nth_error (objs (ms w)) o) as [x|] eqn:Ex; [|inversion H; subst; auto].
+    destruct (Forall2_nth_l _ _ _ _ _ F Ex) as (i & Ei & O).
+    pose proof (do_ppid_obj w (oneshot_enter x) i I (oneshot_enter_obj w x i O)) as O1.
+    destruct (do_ppid (view_of w) (oneshot_enter x)) as [[x1 r1] add]. cbn [fst] in O1.
+    destruct (oneshot_exit x1) as [x2|] eqn:Eo; inversion H; subst; auto.
+    apply (Upd _ o x2 x i); auto. eapply oneshot_exit_obj; eauto.
   - (* IsRunning *)
     destruct (nth_error (objs (ms w)) o) as [x|] eqn:Ex; [|inversion H; subst; auto].
     destruct (Forall2_nth_l _ _ _ _ _ F Ex) as (i & Ei & O).
